@@ -365,4 +365,10 @@ def run(ctx):
     need = {"castle-short", "castle-long", "Pawn-double", "Pawn-ep", "Pawnx=P", "Pawn=P", "Knight", "Rookx", "King"}
     ctx.check(need <= cases, "cases-recognised", "move kinds not recognised on any path: %s" % sorted(need - cases), where,
               sample={"cases": sorted(map(str, cases))})
+    # the placement / rights / en-passant writers do what their calls are taken to mean (toggle a piece, set a right,
+    # set the file) and keep the hash in step: C10's lock-step rule, re-run here
+    from . import c10
+    expl_ = ctx.explanation
+    c10.run(ctx)
+    ctx.explanation = expl_
     ctx.assumptions += ["old half-move clock within 0..=100 (C06 gate; preserved by this rule and C14)", "castling is encoded as king-takes-own-rook (C01 dispatch/king generator)"]
